@@ -89,10 +89,13 @@ Proof.
     rewrite (spec_append_one (spec_append s c1 [a]) c2 b), (spec_append_one (spec_append s c2 [b]) c1 a). cbn [as_tids].
     rewrite (id_stored_one s c1 a _ H1), (id_stored_one s c2 b _ H2).
     rewrite (spec_append_one s c1 a), (spec_append_one s c2 b). cbn [as_tids].
-    destruct (id_stored s (m_id (a_msg a))) eqn:Sa; destruct (id_stored s (m_id (a_msg b))) eqn:Sb; cbn [orb In];
-      destruct (m_id (a_msg a) =? m_id (a_msg b)) eqn:Eab;
-      try (apply N.eqb_eq in Eab); rewrite ?(N.eqb_sym (m_id (a_msg b))), ?Eab; cbn [In];
-      try rewrite Eab; intuition (try congruence).
+    set (ia := m_id (a_msg a)). set (ib := m_id (a_msg b)).
+    destruct (N.eq_dec ia ib) as [E|NE].
+    + rewrite E, !N.eqb_refl. destruct (id_stored s ib); cbn [orb In]; tauto.
+    + assert (E1 : (ia =? ib) = false) by (apply N.eqb_neq; exact NE).
+      assert (E2 : (ib =? ia) = false) by (apply N.eqb_neq; intro X; apply NE; symmetry; exact X).
+      rewrite E1, E2, !orb_false_r.
+      destruct (id_stored s ia); destruct (id_stored s ib); cbn [In]; tauto.
 Qed.
 
 Lemma swap_row_list c1 c2 a l2 : c1 <> c2 -> In c1 all_chans -> In c2 all_chans -> forall s,
@@ -143,6 +146,186 @@ Qed.
 
 Lemma fold_blocks_other bl c : ~ In c (map fst bl) -> forall s, as_log (fold_blocks s bl) c = as_log s c.
 Proof.
-  induction bl as [|b bl IH]; intros Hn s; [reflexivity|]. cbn [fold_blocks fold_left].
+  induction bl as [|b bl IH]; intros Hn s; [reflexivity|].
+  change (fold_blocks s (b :: bl)) with (fold_blocks (spec_append s (fst b) (snd b)) bl).
   cbn [map In] in Hn. rewrite IH by tauto. apply spec_append_other. intro E. apply Hn. left. symmetry. exact E.
 Qed.
+
+Lemma insert_by_map {A B} (f : B -> N) (g : A -> B) x l :
+  insert_by f (g x) (map g l) = map g (insert_by (fun a => f (g a)) x l).
+Proof.
+  induction l as [|y l IH]; cbn [insert_by map]; [reflexivity|].
+  destruct (f (g x) <=? f (g y)); cbn [map]; [reflexivity|]. rewrite IH. reflexivity.
+Qed.
+
+Lemma sort_by_map {A B} (f : B -> N) (g : A -> B) l :
+  sort_by f (map g l) = map g (sort_by (fun a => f (g a)) l).
+Proof.
+  induction l as [|x l IH]; cbn [sort_by map]; [reflexivity|]. rewrite IH. apply insert_by_map.
+Qed.
+
+(* ---- the model's StoreAppendBatch ---------------------------------------------------------------------------------- *)
+Section CBatch.
+  Variable F : Type.
+  Variable f_empty : F.
+  Variable f_may : F -> bytes * bytes -> bool.
+  Variable f_add : F -> bytes * bytes -> F.
+
+  Notation mstate := (mstate F).
+  Notation R := (MsgStore_reads.R F).
+  Notation st_kv := (st_kv F).
+  Notation st_cache := (st_cache F).
+
+  (* an accepted, non-empty item: its channel and validated rows *)
+  Definition rblock := (N * list row)%type.
+  Definition ablock (b : rblock) : block := (fst b, map arow_of (snd b)).
+  Definition kblock (b : rblock) : N * kbatch :=
+    (fst b, stageMessageRows (fst b) (snd b) ++ stageCatalogForAppend (fst b) (first_seq (snd b))).
+  Definition lblock (b : rblock) : N * N := (fst b, last_seq (snd b)).
+
+  Definition good_block (s : aspec) (all : list item) (b : rblock) : Prop :=
+    snd b <> [] /\ count_chan all (fst b) = 1%nat /\ In (fst b) all_chans
+    /\ consec (al_leo (as_log s (fst b)) + 1) (snd b) /\ Forall (row_ok (fst b)) (snd b).
+
+  Lemma count_chan_app l1 l2 c : count_chan (l1 ++ l2) c = (count_chan l1 c + count_chan l2 c)%nat.
+  Proof. unfold count_chan. rewrite filter_app, app_length. reflexivity. Qed.
+
+  Lemma count_chan_in l c m recs : In (c, m, recs) l -> (1 <= count_chan l c)%nat.
+  Proof.
+    intro H. unfold count_chan. induction l as [|x l IH]; [destruct H|]. cbn [filter].
+    destruct H as [->|H]; [cbn [fst]; rewrite N.eqb_refl; cbn [length]; lia|].
+    destruct (fst (fst x) =? c); cbn [length]; specialize (IH H); lia.
+  Qed.
+
+  Lemma cbatch_items_sim s all : forall items pre st (Bpre : list rblock),
+    all = pre ++ items ->
+    R st s ->
+    Forall (fun it : item => In (fst (fst it)) all_chans) items ->
+    (forall b, In b Bpre -> count_chan all (fst b) = 1%nat /\ exists m recs, In (fst b, m, recs) pre) ->
+    let '(st1, rs, bs, ls) := cbatch_items F f_may f_add st all items in
+    R st1 s
+    /\ exists B : list rblock,
+         bs = map kblock B /\ ls = map lblock B
+         /\ Forall (good_block s all) B
+         /\ (forall b, In b B -> exists m recs, In (fst b, m, recs) items)
+         /\ NoDup (map fst B)
+         /\ spec_batch (fold_blocks s (map ablock Bpre)) items rs
+            = Some (fold_blocks (fold_blocks s (map ablock Bpre)) (map ablock B)).
+  Proof.
+    induction items as [|[[c m] recs] items IH]; intros pre st Bpre Hall HR Hch Hpre; cbn [cbatch_items].
+    - split; [exact HR|]. exists []. repeat split; try constructor. intros b [].
+    - inversion Hch as [|? ? Hc Hch']; subst. cbn [fst] in Hc.
+      assert (Hall' : pre ++ (c, m, recs) :: items = (pre ++ [(c, m, recs)]) ++ items) by (rewrite <- app_assoc; reflexivity).
+      (* blocks of the prefix stay blocks of the longer prefix *)
+      assert (Hpre' : forall b, In b Bpre -> count_chan (pre ++ (c, m, recs) :: items) (fst b) = 1%nat
+                                 /\ exists m0 recs0, In (fst b, m0, recs0) (pre ++ [(c, m, recs)])).
+      { intros b Hb. destruct (Hpre b Hb) as [H1 [m0 [recs0 H2]]]. split; [exact H1|]. exists m0, recs0. apply in_or_app. left. exact H2. }
+      destruct (1 <? count_chan (pre ++ (c, m, recs) :: items) c)%nat eqn:Ecnt.
+      { (* the channel occurs twice: rejected *)
+        specialize (IH (pre ++ [(c, m, recs)]) st Bpre Hall' HR Hch' Hpre').
+        destruct (cbatch_items F f_may f_add st (pre ++ (c, m, recs) :: items) items) as [[[st1 rs] bs] ls]. cbv beta iota zeta in IH. Show.
+        destruct IH as [H1 [B [E1 [E2 [E3 [E4 [E5 E6]]]]]]]. split; [exact H1|]. exists B.
+        repeat split; try assumption.
+        - intros b Hb. destruct (E4 b Hb) as [m0 [r0 H0]]. exists m0, r0. right. exact H0.
+        - cbn [spec_batch]. rewrite (proj2 (N.eqb_neq EInvalid 0)) by discriminate. exact E6. }
+      apply Nat.ltb_ge in Ecnt.
+      assert (Hcnt : count_chan (pre ++ (c, m, recs) :: items) c = 1%nat).
+      { pose proof (count_chan_in (pre ++ (c, m, recs) :: items) c m recs) as H. specialize (H ltac:(apply in_or_app; right; left; reflexivity)). lia. }
+      (* the channel is not among the blocks of the prefix *)
+      assert (Hfresh : ~ In c (map fst (map ablock Bpre))).
+      { intro Hin. rewrite map_map in Hin. apply in_map_iff in Hin. destruct Hin as [b [Eb Hb]]. cbn [ablock fst] in Eb. subst c.
+        destruct (Hpre b Hb) as [_ [m0 [r0 H0]]].
+        pose proof (count_chan_in pre (fst b) m0 r0 H0) as H1. rewrite count_chan_app in Hcnt.
+        pose proof (count_chan_in ((fst b, m, recs) :: items) (fst b) m recs (or_introl eq_refl)) as H2. lia. }
+      set (scur := fold_blocks s (map ablock Bpre)).
+      assert (Hlog : as_log scur c = as_log s c) by (apply fold_blocks_other; exact Hfresh).
+      destruct (loadLEO_R F st s c HR) as [H1 [H2 _]].
+      destruct (loadLEOLocked F st c) as [st1 base]. cbn [fst snd] in H1, H2. subst base.
+      destruct recs as [|x recs].
+      { (* an empty item: accepted, no block *)
+        specialize (IH (pre ++ [(c, m, [])]) st1 Bpre Hall' H2 Hch' Hpre').
+        destruct (cbatch_items F f_may f_add st1 (pre ++ (c, m, []) :: items) items) as [[[st2 rs] bs] ls]. cbv beta iota zeta in IH.
+        destruct IH as [H3 [B [E1 [E2 [E3 [E4 [E5 E6]]]]]]]. split; [exact H3|]. exists B.
+        repeat split; try assumption.
+        - intros b Hb. destruct (E4 b Hb) as [m0 [r0 H0]]. exists m0, r0. right. exact H0.
+        - cbn [spec_batch]. rewrite N.eqb_refl. fold scur. rewrite Hlog, N.eqb_refl. cbn [length N.of_nat]. rewrite N.add_0_r, N.eqb_refl.
+          cbn [andb msgs_from]. exact E6. }
+      destruct (compatibilityRowsFromRecords c (al_leo (as_log s c) + 1) (x :: recs)) as [rows|e] eqn:Ec.
+      2:{ specialize (IH (pre ++ [(c, m, x :: recs)]) st1 Bpre Hall' H2 Hch' Hpre').
+          destruct (cbatch_items F f_may f_add st1 (pre ++ (c, m, x :: recs) :: items) items) as [[[st2 rs] bs] ls]. cbv beta iota zeta in IH.
+          destruct IH as [H3 [B [E1 [E2 [E3 [E4 [E5 E6]]]]]]]. split; [exact H3|]. exists B.
+          repeat split; try assumption.
+          - intros b Hb. destruct (E4 b Hb) as [m0 [r0 H0]]. exists m0, r0. right. exact H0.
+          - cbn [spec_batch].
+            assert (Ee : (e =? 0) = false).
+            { unfold compatibilityRowsFromRecords in Ec. clear - Ec.
+              revert Ec. generalize (al_leo (as_log s c) + 1). generalize (x :: recs). intro l.
+              induction l as [|y l IHl]; intros q H; cbn in H; [discriminate|].
+              destruct (negb (i_ridx y =? 0) && negb (i_ridx y =? q)); [injection H as <-; reflexivity|].
+              destruct (i_id y =? 0); [injection H as <-; reflexivity|].
+              destruct (negb (i_rid y =? 0) && negb (i_rid y =? i_id y)); [injection H as <-; reflexivity|].
+              destruct (compatibilityRowsFromRecords c (q + 1) l) as [rs|e0] eqn:E0; [discriminate|].
+              cbn in H. injection H as <-. eapply IHl. exact E0. }
+            rewrite Ee. exact E6. }
+      destruct (compat_rows F f_empty f_may f_add _ _ _ _ Ec) as [Hcs [Har [Hlen Hf]]].
+      pose proof (validate_rows_volatile F f_may f_add rows st1 c (Seen [] []) (if m =? 1 then AppendServerAllocatedMessageID else AppendStrict)) as Hv.
+      destruct (validate_rows F f_may f_add st1 c rows (Seen [] []) (if m =? 1 then AppendServerAllocatedMessageID else AppendStrict))
+        as [st2 [sn|e]] eqn:Ev; cbn [fst] in Hv.
+      2:{ assert (HR2 : R st2 s) by (eapply volatile_R; eassumption).
+          specialize (IH (pre ++ [(c, m, x :: recs)]) st2 Bpre Hall' HR2 Hch' Hpre').
+          destruct (cbatch_items F f_may f_add st2 (pre ++ (c, m, x :: recs) :: items) items) as [[[st3 rs] bs] ls]. cbv beta iota zeta in IH.
+          destruct IH as [H3 [B [E1 [E2 [E3 [E4 [E5 E6]]]]]]]. split; [exact H3|]. exists B.
+          repeat split; try assumption.
+          - intros b Hb. destruct (E4 b Hb) as [m0 [r0 H0]]. exists m0, r0. right. exact H0.
+          - cbn [spec_batch].
+            assert (Ee : (toChannelError e =? 0) = false).
+            { unfold toChannelError. destruct (e =? EConflict) eqn:E0; [reflexivity|].
+              (* validation errors are never 0 *)
+              apply N.eqb_neq. intro X. subst e.
+              clear - Ev. revert Ev. generalize (Seen [] []). generalize st1. induction rows as [|r rows IHr]; intros st0 sn0 H; cbn in H; [discriminate|].
+              destruct (validateAppendRow F f_may f_add st0 c r sn0 _) as [st' [sn'|e']] eqn:Er; [eapply IHr; exact H|].
+              injection H as _ ->. unfold MsgStore.validateAppendRow in Er.
+              repeat match type of Er with
+                     | context [if ?b then _ else _] => destruct b
+                     | context [match lookupIdempotencyByKey ?a ?b ?c ?d with _ => _ end] =>
+                       let E := fresh "El" in destruct (lookupIdempotencyByKey a b c d) as [[[[? ?] ?]|]|?] eqn:E
+                     end; try discriminate Er; try (injection Er as _ Er; discriminate Er).
+              all: injection Er as _ Er; subst.
+              all: unfold lookupIdempotencyByKey in El; destruct (kget _ _) as [v|]; try discriminate El;
+                   destruct v; try discriminate El; unfold bind in El;
+                   destruct (getRowBySeq _ _ _) as [[r0|]|e0] eqn:Eg; try discriminate El;
+                   try (destruct (_ && _ && _ && _); discriminate El);
+                   injection El as El; subst;
+                   unfold getRowBySeq in Eg; destruct (_ =? 0); try discriminate Eg;
+                   destruct (kget _ _) as [v0|]; try discriminate Eg; destruct v0; try discriminate Eg;
+                   unfold bind, validateMaterializedMessageRow in Eg;
+                   destruct (r_id _ =? 0); try discriminate Eg; destruct (negb _); discriminate Eg. }
+            rewrite Ee. exact E6. }
+      (* an accepted block *)
+      assert (HR2 : R st2 s) by (eapply volatile_R; eassumption).
+      assert (Hne : rows <> []) by (intro X; subst rows; discriminate Hlen).
+      assert (Hok : Forall (row_ok c) rows) by (eapply consec_ok; [|exact Hcs|exact Hf]; lia).
+      set (blk := (c, rows) : rblock).
+      assert (Hpre2 : forall b, In b (Bpre ++ [blk]) -> count_chan (pre ++ (c, m, x :: recs) :: items) (fst b) = 1%nat
+                                 /\ exists m0 recs0, In (fst b, m0, recs0) (pre ++ [(c, m, x :: recs)])).
+      { intros b Hb. apply in_app_or in Hb. destruct Hb as [Hb|[<-|[]]]; [apply Hpre'; exact Hb|].
+        split; [exact Hcnt|]. exists m, (x :: recs). apply in_or_app. right. left. reflexivity. }
+      specialize (IH (pre ++ [(c, m, x :: recs)]) st2 (Bpre ++ [blk]) Hall' HR2 Hch' Hpre2).
+      destruct (cbatch_items F f_may f_add st2 (pre ++ (c, m, x :: recs) :: items) items) as [[[st3 rs] bs] ls]. cbv beta iota zeta in IH.
+      destruct IH as [H3 [B [E1 [E2 [E3 [E4 [E5 E6]]]]]]]. split; [exact H3|]. exists (blk :: B).
+      assert (Hnotin : ~ In c (map fst B)).
+      { intro Hin. apply in_map_iff in Hin. destruct Hin as [b [Eb Hb]]. destruct (E4 b Hb) as [m0 [r0 H0]]. rewrite Eb in H0.
+        pose proof (count_chan_in items c m0 r0 H0) as Hc1. rewrite count_chan_app in Hcnt. unfold count_chan in Hcnt at 2. cbn [filter fst] in Hcnt.
+        rewrite N.eqb_refl in Hcnt. cbn [length] in Hcnt. fold (count_chan items c) in Hcnt. lia. }
+      split; [cbn [map kblock fst snd blk]; rewrite E1; reflexivity|].
+      split; [cbn [map lblock fst snd blk]; rewrite E2; f_equal; f_equal;
+              pose proof (consec_last _ _ Hcs Hne) as Hl; rewrite Hlen in Hl; lia|].
+      split; [constructor; [|exact E3]; unfold good_block; cbn [fst snd blk]; repeat split; assumption|].
+      split; [intros b [<-|Hb]; [exists m, (x :: recs); left; reflexivity|destruct (E4 b Hb) as [m0 [r0 H0]]; exists m0, r0; right; exact H0]|].
+      split; [cbn [map fst blk]; constructor; assumption|].
+      cbn [spec_batch]. rewrite N.eqb_refl. fold scur. rewrite Hlog, N.eqb_refl, N.eqb_refl. cbn [andb].
+      rewrite <- Har. rewrite map_app in E6. unfold fold_blocks in E6 at 1. rewrite fold_left_app in E6. cbn [fold_left map ablock fst snd blk] in E6.
+      fold (fold_blocks s (map ablock Bpre)) in E6. fold scur in E6. rewrite E6.
+      unfold fold_blocks at 3. cbn [map fold_left ablock fst snd blk]. reflexivity.
+  Qed.
+End CBatch.
